@@ -74,7 +74,8 @@ IngestVerdict(r) ==
       \* recipients the daemon must hand to the queue: all for smtp (the session offered only accepted ones) and qmqp; the acceptable ones for qmtp
       handed == IF r.proto = "qmtp" THEN Sel(r.xr, [i \in 1..n |-> r.rc[i] = "ok"]) ELSE r.xr
   IN
-  IF anypos /\ ~committed THEN "AcknowledgedButNotQueued"
+  IF r.incomplete /\ committed THEN "IncompleteRequestQueued"          \* the client stopped (or sent a wrong byte) before its request was complete
+  ELSE IF anypos /\ ~committed THEN "AcknowledgedButNotQueued"
   ELSE IF anypos /\ r.got # r.body THEN "AcknowledgedMessageIsNotTheOneQueued"
   ELSE IF anypos /\ ~ReceivedOk(r.recv) THEN "ReceivedFieldMalformedOrUnsafe"
   ELSE IF anypos /\ r.pf.known /\ ~ReceivedExact(r.recv, r.pf) THEN "ReceivedFieldDoesNotNameThePeerSafely"
